@@ -332,12 +332,45 @@ def mode_resolve_table(pairs):
             continue
         try:
             obj = getattr(mod, c)
-            out[m + "." + c] = [getattr(obj, "__module__", None) or "__main__", obj.__name__]
+            if getattr(obj, "__module__", None) is None or not isinstance(getattr(obj, "__name__", None), str):
+                out[m + "." + c] = "SKIP"      # skops would scan sys.modules (process-state dependent) or fail: not modelled
+            else:
+                out[m + "." + c] = [obj.__module__, obj.__name__]
         except AttributeError:
             out[m + "." + c] = "EAttr"
     return out
 
 
+UNIVERSE_MODULES = ["builtins", "os", "posix", "sys", "subprocess", "shutil", "importlib", "pickle", "marshal", "ctypes", "socket",
+                    "io", "pathlib", "tempfile", "operator", "functools", "types", "code", "runpy",
+                    "numpy", "numpy.random", "numpy.linalg", "numpy.ma", "numpy.lib", "scipy", "scipy.special", "scipy.sparse", "scipy.linalg",
+                    "sklearn", "sklearn.base", "sklearn.utils", "sklearn.pipeline", "sklearn.metrics", "sklearn.tree._tree",
+                    "sklearn.linear_model._sgd_fast", "sklearn._loss._loss", "joblib"]
+
+
+def mode_universe(_):
+    """Enumerate the public names of the modules the property lists (installed versions) with their family tag."""
+    from families import family_tag
+    out = []
+    with warnings.catch_warnings():
+        warnings.simplefilter("ignore")
+        for m in UNIVERSE_MODULES:
+            try:
+                mod = importlib.import_module(m)
+            except Exception:
+                continue
+            for a in sorted(dir(mod)):
+                if a.startswith("__"):
+                    continue
+                try:
+                    getattr(mod, a)
+                except Exception:
+                    continue
+                out.append([m, a, family_tag(f"{m}.{a}")])
+    return out
+
+
+MODES["universe"] = mode_universe
 MODES["inspect"] = mode_inspect
 MODES["resolve_table"] = mode_resolve_table
 
